@@ -45,4 +45,153 @@ theorem c12_gen_wrappers_empty :
     Gen.C12.Roster_GenerateBinaryTree (rosterOfKeys []) modelGen = .panic ∧
     Gen.C12.Roster_GenerateStar (rosterOfKeys []) modelGen = .panic := by
   constructor <;> rfl
+
+/-! ### `TreeNode.IsRoot`, `TreeNode.IsLeaf`, `Tree.IsNary` on the pointer tree
+
+The translated `TreeNode` keeps `Parent` (a pointer that may be nil: an option) and `Children`.  `Tree.IsNary` calls
+itself on every child: the translation takes fuel, one unit per call, and `none` is "out of fuel". -/
+
+private theorem len_zero {α} (l : List α) : (Gen.Rt.len l == 0) = l.isEmpty := by
+  cases l with
+  | nil => rfl
+  | cons a r =>
+    have h : ¬ (((r.length : Nat) : Int) + 1 = 0) := by omega
+    simp [Gen.Rt.len, h]
+
+/-- `IsRoot`: no parent -/
+theorem c12_gen_IsRoot_eq (t : Gen.C12.TreeNode) : Gen.C12.TreeNode_IsRoot t = t.Parent.isNone := rfl
+
+/-- `IsLeaf`: no children -/
+theorem c12_gen_IsLeaf_eq (t : Gen.C12.TreeNode) : Gen.C12.TreeNode_IsLeaf t = t.Children.isEmpty := by
+  unfold Gen.C12.TreeNode_IsLeaf
+  exact len_zero _
+
+/-- the height of a pointer tree (a leaf has height 0), with fuel of its own -/
+def heightF : Nat → Gen.C12.TreeNode → Nat
+  | 0, _ => 0
+  | f + 1, t => (t.Children.map fun c => heightF f c + 1).foldl max 0
+
+/-- what `IsNary` decides, on `f` levels: every node has `N` children or none -/
+def naryF (N : Int) : Nat → Gen.C12.TreeNode → Bool
+  | 0, _ => true
+  | f + 1, t => ((Int.ofNat t.Children.length == N) || t.Children.isEmpty) && t.Children.all (naryF N f)
+
+/-- **`Tree.IsNary` as translated**: with fuel it either runs out (`none`) or decides exactly "every node down to the
+level the fuel reaches has `N` children or none" — the loop returns `false` at the first child that is not `N`-ary
+and `true` after the last -/
+theorem c12_gen_IsNary_eq (t : Outcome Nodes) (N : Int) :
+    ∀ (fuel : Nat) (root : Gen.C12.TreeNode) (r : Bool),
+      Gen.C12.Tree_IsNary fuel t root N = some r → r = naryF N fuel root := by
+  intro fuel
+  induction fuel with
+  | zero => intro root r h; simp [Gen.C12.Tree_IsNary] at h
+  | succ f ih =>
+    intro root r h
+    unfold Gen.C12.Tree_IsNary at h
+    simp only [naryF]
+    have hlen : ((Gen.Rt.len root.Children != N) && (Gen.Rt.len root.Children != 0)) =
+        !((Int.ofNat root.Children.length == N) || root.Children.isEmpty) := by
+      have h0 := len_zero root.Children
+      have h1 : (Gen.Rt.len root.Children != N) = !(Int.ofNat root.Children.length == N) := rfl
+      have h2 : (Gen.Rt.len root.Children != 0) = !(Gen.Rt.len root.Children == 0) := rfl
+      rw [h1, h2, h0, Bool.not_or]
+    simp only [] at h
+    rw [hlen] at h
+    cases hc : ((Int.ofNat root.Children.length == N) || root.Children.isEmpty)
+    · rw [hc] at h
+      simp only [Bool.not_false, if_true, Option.some.injEq] at h
+      simp [← h]
+    · rw [hc] at h
+      simp only [Bool.not_true, Bool.false_eq_true, if_false, Bool.true_and] at h ⊢
+      -- the loop over the children
+      have loop : ∀ cs : List Gen.C12.TreeNode,
+          (match Gen.Rt.rangeReturn cs (fun c =>
+              match Gen.C12.Tree_IsNary f t c N with
+              | none => some none
+              | some b => if (!b) = true then some (some false) else none) with
+            | some x => x
+            | none => some true) = some r → r = cs.all (naryF N f) := by
+        intro cs
+        induction cs with
+        | nil => intro h; simp [Gen.Rt.rangeReturn] at h; simp [← h]
+        | cons c rest ihc =>
+          intro h
+          simp only [Gen.Rt.rangeReturn, List.findSome?_cons] at h ihc
+          rcases Option.eq_none_or_eq_some (Gen.C12.Tree_IsNary f t c N) with hn | ⟨b, hb⟩
+          · simp [hn] at h
+          · have := ih c b hb
+            cases b
+            · simp only [hb, Bool.not_false, if_true, Option.some.injEq] at h
+              simp [← h, ← this]
+            · simp only [hb, Bool.not_true, Bool.false_eq_true, if_false] at h
+              simp only [List.all_cons, ← this, Bool.true_and]
+              exact ihc h
+      exact loop _ h
+
+/-- fuel beyond the height of the tree is never used up: the call decides (with `c12_gen_IsNary_eq`: it decides
+`naryF` on the whole tree) -/
+theorem c12_gen_IsNary_total (t : Outcome Nodes) (N : Int) :
+    ∀ (fuel : Nat) (root : Gen.C12.TreeNode), heightF fuel root < fuel →
+      ∃ r, Gen.C12.Tree_IsNary fuel t root N = some r := by
+  intro fuel
+  induction fuel with
+  | zero => intro root h; simp at h
+  | succ f ih =>
+    intro root h
+    unfold Gen.C12.Tree_IsNary
+    by_cases hc : ((Gen.Rt.len root.Children != N) && (Gen.Rt.len root.Children != 0)) = true
+    · exact ⟨false, by simp [hc]⟩
+    · simp only [hc, Bool.false_eq_true, if_false]
+      have hk : ∀ c ∈ root.Children, heightF f c < f := by
+        intro c hm
+        have hmax : ∀ (l : List Nat) (a x : Nat), x ∈ l → x ≤ l.foldl max a := by
+          intro l
+          induction l with
+          | nil => intro a x hx; simp at hx
+          | cons y ys ihl =>
+            intro a x hx
+            simp only [List.foldl_cons]
+            have hmono : ∀ (zs : List Nat) (a b : Nat), a ≤ b → zs.foldl max a ≤ zs.foldl max b := by
+              intro zs
+              induction zs with
+              | nil => intro a b h; simpa using h
+              | cons z zs ihz => intro a b h; simp only [List.foldl_cons]; exact ihz _ _ (by omega)
+            have hge : ∀ (zs : List Nat) (a : Nat), a ≤ zs.foldl max a := by
+              intro zs
+              induction zs with
+              | nil => intro a; simp
+              | cons z zs ihz => intro a; simp only [List.foldl_cons]; exact Nat.le_trans (by omega) (ihz _)
+            rcases List.mem_cons.mp hx with rfl | hx
+            · exact Nat.le_trans (by omega) (hge ys _)
+            · exact ihl _ _ hx
+        have : heightF f c + 1 ≤ heightF (f + 1) root := by
+          simp only [heightF]
+          exact hmax _ 0 _ (List.mem_map.mpr ⟨c, hm, rfl⟩)
+        omega
+      have loop : ∀ cs : List Gen.C12.TreeNode, (∀ c ∈ cs, heightF f c < f) →
+          ∃ r, (match Gen.Rt.rangeReturn cs (fun c =>
+              match Gen.C12.Tree_IsNary f t c N with
+              | none => some none
+              | some b => if (!b) = true then some (some false) else none) with
+            | some x => x
+            | none => some true) = some r := by
+        intro cs
+        induction cs with
+        | nil => intro _; exact ⟨true, by simp [Gen.Rt.rangeReturn]⟩
+        | cons c rest ihc =>
+          intro hall
+          obtain ⟨b, hb⟩ := ih c (hall c List.mem_cons_self)
+          simp only [Gen.Rt.rangeReturn, List.findSome?_cons, hb] at ihc ⊢
+          cases b
+          · exact ⟨false, by simp⟩
+          · simp only [Bool.not_true, Bool.false_eq_true, if_false]
+            exact ihc (fun c' hc' => hall c' (List.mem_cons_of_mem _ hc'))
+      exact loop _ hk
+
+/-- a binary tree of three nodes is 2-ary and not 3-ary; its root is a root and no leaf (the hypotheses can be met) -/
+example : let leaf : Gen.C12.TreeNode := { Parent := none, Children := [] }
+    let root : Gen.C12.TreeNode := { Parent := none, Children := [leaf, leaf] }
+    Gen.C12.Tree_IsNary 3 .noTree root 2 = some true ∧ Gen.C12.Tree_IsNary 3 .noTree root 3 = some false ∧
+    Gen.C12.TreeNode_IsRoot root = true ∧ Gen.C12.TreeNode_IsLeaf root = false ∧ heightF 3 root < 3 := by
+  refine ⟨by decide, by decide, rfl, by decide, by decide⟩
 end C12
